@@ -77,4 +77,24 @@ def connectEncodeConsistent (lo hi : Int) (hdr : Option Bytes) : Bool :=
       h == showDec m && decide (0 < m) && decide (h.length ≤ 10) &&
       decide (Int.tdiv lo 1000000 ≤ (m : Int)) && decide ((m : Int) ≤ Int.tdiv hi 1000000)
 
+/-! ### when the timeout is computed (fix F20)
+
+  A streaming call is created at `created` under a context with deadline `dl`; its HTTP request
+  goes out at `sent ≥ created`, with the first `Send` or `CloseRequest`. Times are nanoseconds on
+  one clock. After the fix the header is computed from the time remaining when the request goes
+  out (`duplexHTTPCall.onRequestSend`); the pinned tree computed it in `NewConn`. -/
+
+def headerRemaining (dl _created sent : Int) : Int := dl - sent
+def headerRemainingPinned (dl created _sent : Int) : Int := dl - created
+
+/-- the handler's deadline (absolute), if the request arrives the moment it is sent: what the
+    peer's timeout header makes of the remaining time the client encoded -/
+def peerDeadline (encode : Int → Option Bytes) (parse : Bytes → TimeoutParse) (remaining sent : Int) : Option Int :=
+  match encode remaining with
+  | none => none
+  | some h =>
+    match parse h with
+    | .ok v => some (sent + v)
+    | _ => none
+
 end ConnectModel
